@@ -448,6 +448,9 @@ type hedgedScen struct {
 	Order      []int `json:"order"`      // which parked invocation returns next (index modulo the number parked)
 	ReturnLast bool  `json:"return_last"`
 	Async      bool  `json:"async"`
+	// SlowAbortUs: the policy has an abort predicate that takes this long to say no (user code that runs between the
+	// policy's own steps, while other branches of the execution are inside the policy too)
+	SlowAbortUs int `json:"slow_abort_us,omitempty"`
 }
 
 func TestHedgedRetryEvents(t *testing.T) {
@@ -456,7 +459,8 @@ func TestHedgedRetryEvents(t *testing.T) {
 	rapid.Check(t, func(t *rapid.T) {
 		sc := hedgedScen{MaxHedges: rapid.IntRange(1, 3).Draw(t, "maxHedges"), MaxRetries: rapid.IntRange(0, 3).Draw(t, "maxRetries"),
 			SucceedAt: rapid.SampledFrom([]int{0, 0, 0, 2, 4, 6}).Draw(t, "succeedAt"), Burst: rapid.Bool().Draw(t, "burst"),
-			ReturnLast: rapid.Bool().Draw(t, "returnLast"), Async: rapid.Bool().Draw(t, "async")}
+			ReturnLast: rapid.Bool().Draw(t, "returnLast"), Async: rapid.Bool().Draw(t, "async"),
+			SlowAbortUs: rapid.SampledFrom([]int{0, 0, 30, 150}).Draw(t, "slowAbortUs")}
 		for i := 0; i < 12; i++ {
 			sc.Order = append(sc.Order, rapid.IntRange(0, 3).Draw(t, "order"))
 		}
@@ -551,6 +555,13 @@ func runHedgedRetry(t harness.TB, st *harness.Stats, sc hedgedScen) {
 			OnAbort(func(failsafe.ExecutionEvent[int]) { hit("OnAbort") })
 		if sc.ReturnLast {
 			rb.ReturnLastFailure()
+		}
+		if sc.SlowAbortUs > 0 {
+			rb.AbortIf(func(int, error) bool {
+				for end := time.Now().Add(time.Duration(sc.SlowAbortUs) * time.Microsecond); time.Now().Before(end); {
+				}
+				return false
+			})
 		}
 		hp := hedgepolicy.BuilderWithDelay[int](time.Microsecond).WithMaxHedges(sc.MaxHedges).
 			CancelIf(func(_ int, err error) bool { return err == nil }).
